@@ -101,6 +101,27 @@ fn edits() -> Vec<Edit> {
             let victim = m.funcs.iter_local().map(|(id, _)| id).find(|id| m.exports.get_exported_func(*id).is_none() && m.funcs.get(*id).name.as_deref() == Some("mid"));
             if let Some(v) = victim { m.funcs.delete(v); c.funcs -= 1; }
             Ok(()) }),
+        ("delete an unused type, then build a function with the same signature", |m, c| {
+            // (a well-formed edit sequence: the signature is interned again; the builder must not be handed the dead id)
+            let t = m.types.add(&[ValType::I64, ValType::F32], &[ValType::F64]);
+            m.types.delete(t);
+            let mut b = FunctionBuilder::new(&mut m.types, &[ValType::I64, ValType::F32], &[ValType::F64]);
+            b.func_body().f64_const(1.5);
+            let a0 = m.locals.add(ValType::I64); let a1 = m.locals.add(ValType::F32);
+            let f = b.finish(vec![a0, a1], &mut m.funcs); m.exports.add("reuses_deleted_signature", f);
+            c.funcs += 1; c.exports += 1; Ok(()) }),
+        ("gc, then build a function whose signature gc may have removed", |m, c| {
+            walrus::passes::gc::run(m);
+            let mut b = FunctionBuilder::new(&mut m.types, &[], &[]);
+            b.func_body().i32_const(3).drop();
+            let f = b.finish(vec![], &mut m.funcs); m.exports.add("after_gc", f);
+            let mut b2 = FunctionBuilder::new(&mut m.types, &[ValType::I32], &[]);
+            b2.func_body().i32_const(4).drop();
+            let a = m.locals.add(ValType::I32);
+            let g = b2.finish(vec![a], &mut m.funcs); m.exports.add("after_gc_i32", g);
+            // what gc removed from the base module is not this battery's business (C06 / C07): take the inventory from here on
+            *c = counts(&m.emit_wasm())?;
+            Ok(()) }),
         ("delete an export", |m, c| { let first = m.exports.iter().next().map(|e| e.id()); if let Some(e) = first { m.exports.delete(e); c.exports -= 1; } Ok(()) }),
     ]
 }
